@@ -5,6 +5,7 @@ usage: patch_check.py <patch> [<patch> ...]"""
 import json, os, shutil, subprocess, sys, tempfile
 from concurrent.futures import ThreadPoolExecutor
 VERIF = os.path.dirname(os.path.abspath(__file__))
+REPO = os.environ.get("PATCH_CHECK_REPO", "/repo")   # a snapshot of /repo when run in the background (vp run --with-repo)
 PROPS = [json.loads(l)["id"] for l in open(os.path.join(VERIF, "properties.jsonl"))]
 PROPS = [p for p in PROPS if os.path.exists(os.path.join(VERIF, "rbv", "rules", p.lower() + ".py"))]
 
@@ -12,7 +13,7 @@ PROPS = [p for p in PROPS if os.path.exists(os.path.join(VERIF, "rbv", "rules", 
 def run_one(patch):
     tmp = tempfile.mkdtemp(prefix="rbv-patch-")
     try:
-        subprocess.run(["rsync", "-a", "--exclude", "target", "--exclude", ".git", "/repo/", tmp + "/"], check=True)
+        subprocess.run(["rsync", "-a", "--exclude", "target", "--exclude", ".git", REPO.rstrip("/") + "/", tmp + "/"], check=True)
         r = subprocess.run(["patch", "-p1", "-s", "-d", tmp, "-i", os.path.abspath(patch)],
                            stdout=subprocess.PIPE, stderr=subprocess.STDOUT, text=True)
         if r.returncode != 0:
